@@ -67,7 +67,7 @@ def obligations(tier):
                        bounds="first add of id %d; 3 additions from 4 ids x 3 versions; the same long-lived filesystem and memory stores answer 5 queries, get and all_versions before the first and "
                               "after every addition (shared with C11); starting layouts: nothing, empty type directories, an object in the old flat layout" % q))
     obls.append(CH("filterset_under_add_remove_histories", H, "filterset_history", t * 2, mode="E1s", functions=FF[3:] + ["stix2.datastore.filters.FilterSet.remove"] + FM[:1],
-                   bounds="every history of 4 steps (add a new equal instance / remove) over 4 filters: after each step the set holds the model's filters and an attached / passed set filters a MemorySource like the naive evaluation"))
+                   bounds="every history of 3 steps followed by re-attaching the first filter (add a new equal instance / remove / detach everything, also by handing the set to its own remove()) over 4 filters: after each step the set holds the model's filters and an attached / passed set filters a MemorySource like the naive evaluation"))
     if tier == "quick":
         obls.append(CH("fs_optimiser_k2", H, "optimiser2", t, mode="E1s", functions=FO + FM[:1], stubs=[FSS],
                        bounds="every pair of type/id filters (=, !=, in, in []) over 3 types x 4 ids; soundness and exactness vs naive and MemorySource, also through a view of the store made of symbolic links"))
